@@ -191,6 +191,13 @@ type c06Mut struct {
 	Apply func(a *aArr) bool
 }
 
+// c06LeakOnly: two-step mutations whose exact effect on the mutated side is not modelled (sparse
+// integer keys); only "the other name still holds what it held" is asserted, on non-sharing routes
+var c06LeakOnly = map[string]bool{"unset-then-int-store": true, "unset-then-append": true, "sparse-store-then-overwrite": true, "pop-then-int-store": true, "last-int-key-store": true}
+
+// plainList: a positional list with at least n elements
+func plainList(a *aArr, n int) bool { return !keyedShape(a) && len(a.Vals) >= n }
+
 // keyedShape: a literal with string keys is an object-like value in origami
 // (docs/php-differences.md #3); positional mutations on it are not asserted.
 func keyedShape(a *aArr) bool {
@@ -212,6 +219,11 @@ func firstPositional(a *aArr) int {
 }
 
 var c06Muts = []c06Mut{
+	{"unset-then-int-store", func(L string, a *aArr) string { return "unset(" + L + "[0]); " + L + "[1] = 77;" }, func(a *aArr) bool { return plainList(a, 2) }},
+	{"unset-then-append", func(L string, a *aArr) string { return "unset(" + L + "[0]); " + L + "[] = 77;" }, func(a *aArr) bool { return plainList(a, 2) }},
+	{"sparse-store-then-overwrite", func(L string, a *aArr) string { return L + "[10] = 1; " + L + "[10] = 2; " + L + "[0] = 3;" }, func(a *aArr) bool { return plainList(a, 1) }},
+	{"pop-then-int-store", func(L string, a *aArr) string { return "array_pop(" + L + "); " + L + "[0] = 77;" }, func(a *aArr) bool { return plainList(a, 2) }},
+	{"last-int-key-store", func(L string, a *aArr) string { return fmt.Sprintf("%s[%d] = 77;", L, len(a.Vals)-1) }, func(a *aArr) bool { return plainList(a, 2) }},
 	{"int-key-store", func(L string, a *aArr) string { return L + "[0] = 99;" }, func(a *aArr) bool {
 		if keyedShape(a) {
 			return false
@@ -402,12 +414,13 @@ type c06Case struct {
 	Before                  string `json:"before"` // normalised snapshot both names must hold before the mutation
 	After                   string `json:"after"`  // normalised snapshot of the mutated side afterwards (model)
 	Shared                  bool   `json:"shared"`
+	LeakOnly                bool   `json:"leak_only,omitempty"`
 }
 
 func mkC06Case(route, shapeName, side string, sh *aArr, m c06Mut, shared bool, src string) c06Case {
 	after := sh.clone()
 	m.Apply(after)
-	return c06Case{Route: route, Shape: shapeName, Mut: m.Name, Side: side, Src: src, Before: aNorm(sh), After: aNorm(after), Shared: shared}
+	return c06Case{Route: route, Shape: shapeName, Mut: m.Name, Side: side, Src: src, Before: aNorm(sh), After: aNorm(after), Shared: shared, LeakOnly: c06LeakOnly[m.Name]}
 }
 
 func c06Script(r c06Route, shape *aArr, m c06Mut, side string) string {
@@ -482,6 +495,12 @@ func c06Judge(pool *sb.Pool, rec *sb.Rec, c c06Case) []*failure {
 	if c.Side == "orig" {
 		mut, other, otherName = o1, c1, "copy"
 	}
+	if c.LeakOnly {
+		if !shared && other != before {
+			mk("leak", fmt.Sprintf("the write shows through the %s: %s (was %s)", otherName, other, before))
+		}
+		return out
+	}
 	if mut != afterS {
 		mk("effect", fmt.Sprintf("mutated side is %s, model says %s", mut, afterS))
 		if shared {
@@ -502,7 +521,7 @@ func TestC06(t *testing.T) {
 	cfg := sb.LoadConfig("C06")
 	rec := sb.NewRec(cfg)
 	defer rec.Flush()
-	rec.R.Rule = "complete enumeration of (array shape: empty / list / string-keyed / nested to depth 3 / mixed / strings) x (aliasing route: assign, by-value parameter, return, return of a static local, store into / read from a property, store into / read from an outer array, clone; positive controls: & reference, object handle) x (12 mutations) x (mutated side); rapid adds random shapes and sequences of 2-3 mutations. Non-trivial = the mutation changes the mutated side in the model; distinct by (route, shape, mutation, side)."
+	rec.R.Rule = "complete enumeration of (array shape: empty / list / string-keyed / nested to depth 3 / mixed / strings) x (aliasing route: assign, by-value parameter, return, return of a static local, store into / read from a property, store into / read from an outer array, clone; positive controls: & reference, object handle) x (12 single mutations with a modelled effect + 5 two-step mutations over sparse / unset / popped integer keys judged for independence only) x (mutated side); rapid adds random shapes and sequences of 2-3 mutations. Non-trivial = the mutation changes the mutated side in the model; distinct by (route, shape, mutation, side)."
 	pool := &sb.Pool{}
 	defer pool.Close()
 	dl := time.Now().Add(budget(cfg, 50, 600))
